@@ -446,7 +446,7 @@ func (g *c19Gen) step() {
 		}
 		return ex[r.Intn(len(ex))]
 	}
-	ws := []int{16, 8, 14, 30, 24, 8}
+	ws := []int{16, 8, 14, 30, 24, 8, 10}
 	if len(ex) >= 4 {
 		ws[2] = 0
 	}
@@ -509,6 +509,18 @@ func (g *c19Gen) step() {
 		}
 		sc.reg(signer, na)
 		g.do(sc.op(L1Op{Kind: "uchallenger", Sender: signer, Bridge: b, NewAddr: na}), "")
+	case 6: // re-submit the metadata bytes the bridge already stores: the hook must run again
+		b := pickBridge()
+		cfg, err := e.K.GetBridgeConfig(e.Ctx, b)
+		if err != nil {
+			return
+		}
+		signer := cfg.Proposer
+		if r.Chance(30) {
+			signer = e.Auth
+		}
+		sc.reg(signer)
+		g.do(sc.op(L1Op{Kind: "umeta", Sender: signer, Bridge: b, Meta: append([]byte{}, cfg.Metadata...)}), "resend-stored")
 	case 5: // other messages of the module: they must not touch the table
 		b := pickBridge()
 		switch r.Intn(4) {
@@ -598,6 +610,34 @@ func c19Shared(seed uint64, id int, order int, rep *Report) *L1Case {
 	return g.c
 }
 
+// re-submitting a bridge's stored metadata after the listed channel went to somebody else
+// (through a second bridge's hand-over, or a grant by another module) must be refused
+func c19Resend(seed uint64, id int, foreign bool, rep *Report) *L1Case {
+	g := newC19Scenario(seed, id)
+	g.rep = rep
+	sc, e := g.sc, g.sc.Env
+	ch := c19Universe[0]
+	md := []byte(`{"perm_channels":[` + c19Entry(ch) + `]}`)
+	X, Y, P := e.User(1).Str, e.User(2).Str, e.User(4).Str
+	g.do(sc.op(L1Op{Kind: "chanset", Port: ch[0], Chan: ch[1], Has: true, Val: 1}), "")
+	c1 := sc.NewConfig(4, 1, 100*sec)
+	c1.Meta = md
+	g.do(sc.Create(e.User(5).Str, c1), "valid")
+	c2 := sc.NewConfig(4, 1, 100*sec)
+	c2.Meta = []byte("plain")
+	g.do(sc.Create(e.User(5).Str, c2), "non-json")
+	sc.reg(X, Y, P)
+	if foreign {
+		g.do(sc.op(L1Op{Kind: "adminset", Port: ch[0], Chan: ch[1], Has: true, Val: e.User(3).ID}), "")
+	} else {
+		g.do(sc.op(L1Op{Kind: "umeta", Sender: P, Bridge: 2, Meta: md}), "valid")
+		g.do(sc.op(L1Op{Kind: "uchallenger", Sender: X, Bridge: 2, NewAddr: Y}), "")
+	}
+	g.do(sc.op(L1Op{Kind: "umeta", Sender: P, Bridge: 1, Meta: append([]byte{}, md...)}), "resend-stored")
+	g.do(sc.op(L1Op{Kind: "umeta", Sender: e.Auth, Bridge: 1, Meta: append([]byte{}, md...)}), "resend-stored")
+	return g.c
+}
+
 func genC19(seed uint64, tier string, outdir string) *Report {
 	rep := NewReport("C19", seed, tier)
 	rep.Rule = "a case is one history of environment ops and create / update-metadata / update-challenger over up to four bridges on a fresh instance with the real hook; distinct by hash of the op list; non-trivial = at least one grant or handover succeeded and at least one hook-guarded message was refused"
@@ -614,8 +654,14 @@ func genC19(seed uint64, tier string, outdir string) *Report {
 		rep.CountCase(strings.Join(l1OpsHuman(c.Ops), "\n"), false)
 		texts = append(texts, c.Coq())
 	}
+	for k := 0; k < 2; k++ {
+		c := c19Resend(seed+10+uint64(k), 6+k, k == 1, rep)
+		rep.Ops += len(c.Ops)
+		rep.CountCase(strings.Join(l1OpsHuman(c.Ops), "\n"), true)
+		texts = append(texts, c.Coq())
+	}
 	for k := 0; k < nCases; k++ {
-		g := newC19Scenario(seed*6151+uint64(k), k+6)
+		g := newC19Scenario(seed*6151+uint64(k), k+8)
 		g.rep = rep
 		for n := 0; n < nOps; n++ {
 			g.step()
